@@ -528,12 +528,15 @@ func c20LoaderPurity(c *core.Ctx, rule string, fns []*ssa.Function) int {
 					} else if b == keyV {
 						sameAsKey = true
 					}
-					if !immutable && !sameAsKey {
+					_ = immutable
+					if !sameAsKey {
+						// an immutable captured value that is not the key: the loader's result depends on it, so the key must
+						// determine it — only the identity is accepted (a digest or a normalised form of it is not injective)
 						bad = fv.Name() + " (" + vt.String() + ")"
 					}
 				}
 				if bad != "" {
-					c.Bad(rule, key, core.InstrPos(ci), "the cache loader reads captured mutable state "+core.Rel(bad)+" that the key does not determine: a hit can return what a miss would not compute")
+					c.Bad(rule, key, core.InstrPos(ci), "the cache loader reads captured state "+core.Rel(bad)+" that is not the cache key itself (mutable, or a value the key is merely derived from): a hit can return what a miss would not compute")
 				} else {
 					c.OK(rule, key, core.InstrPos(ci), "loader captures only the key / immutable values")
 				}
